@@ -1783,9 +1783,8 @@ Definition rollback_restores_earlier_statement : Prop :=
   forall E h1 h2 k, WF E (h1 ++ h2) -> k = length (plan (run E h1 init)) ->
     (forall k', In (R k') h2 -> k <= k') ->
     exists s', backtrack E k (run E (h1 ++ h2) init) = (s', Ok tt) /\ equiv s' (run E h1 init).
-(* the "replay from the empty state" form; proved below when the surviving prefix contains no
-   rollback of its own (backtrack_is_replay_partial_proof); in general it needs, in addition,
-   that API calls respect ≈w (not proved) *)
+(* the "replay from the empty state" form, for arbitrarily nested rollbacks: proved below
+   (backtrack_is_replay_proof) from the fact that well-formed calls respect ≈w (call_cong) *)
 Definition backtrack_is_replay_statement : Prop :=
   forall E h, WF E h -> equivw (run E h init) (replay E (surviving E h) init).
 
@@ -1861,6 +1860,461 @@ Lemma backtrack_composes_proof : forall E s n n' t t2,
   backtrack E n s = (t, Ok tt) -> backtrack E n' t = (t2, Ok tt) ->
   exists t3, backtrack E n' s = (t3, Ok tt) /\ equiv t3 t2.
 Proof. intros. eapply backtrack_compose; eauto. Qed.
+
+(* ------------------------------------------------------------------ calls respect ≈w *)
+Lemma equivw_refl s : equivw s s.
+Proof. split; [apply obs_refl | reflexivity]. Qed.
+Lemma equivw_sym s1 s2 : equivw s1 s2 -> equivw s2 s1.
+Proof. intros [H1 H2]. split; [apply obs_sym; exact H1 | symmetry; exact H2]. Qed.
+Lemma equivw_trans s1 s2 s3 : equivw s1 s2 -> equivw s2 s3 -> equivw s1 s3.
+Proof. intros [H1 H2] [H3 H4]. split; [eapply obs_trans; eauto | congruence]. Qed.
+Lemma equiv_equivw s1 s2 : equiv s1 s2 -> equivw s1 s2.
+Proof. intros [H1 H2]. split; [exact H1 | rewrite H2; reflexivity]. Qed.
+
+Definition Mrelw {A B} (R : A -> B -> Prop) (m1 : M A) (m2 : M B) : Prop :=
+  forall s1 s2, equivw s1 s2 ->
+    equivw (fst (m1 s1)) (fst (m2 s2)) /\ Rres R (snd (m1 s1)) (snd (m2 s2)).
+
+Lemma Mrelw_ret {A B} (R : A -> B -> Prop) a b : R a b -> Mrelw R (ret a) (ret b).
+Proof. intros H s1 s2 Hs. cbn. auto. Qed.
+Lemma Mrelw_bind {A B A' B'} (R : A -> B -> Prop) (R' : A' -> B' -> Prop) m1 m2 f1 f2 :
+  Mrelw R m1 m2 -> (forall a b, R a b -> Mrelw R' (f1 a) (f2 b)) -> Mrelw R' (bind m1 f1) (bind m2 f2).
+Proof.
+  intros Hm Hf s1 s2 Hs. unfold bind. destruct (Hm s1 s2 Hs) as [H1 H2].
+  destruct (m1 s1) as [t1 [a|e1]], (m2 s2) as [t2 [b|e2]]; cbn in *; try contradiction.
+  - apply Hf; assumption.
+  - auto.
+Qed.
+Lemma Mrelw_lift {A B} (R : A -> B -> Prop) m1 m2 : Mrel R m1 m2 -> Mframe m1 -> Mframe m2 -> Mrelw R m1 m2.
+Proof.
+  intros H F1 F2 s1 s2 [Ho Hl]. destruct (H s1 s2 Ho) as [H1 H2]. split; [|exact H2].
+  split; [exact H1 | rewrite F1, F2; exact Hl].
+Qed.
+Lemma Mrelw_plan_append o1 o2 : Mrelw (@Rtrue unit unit) (plan_append o1) (plan_append o2).
+Proof.
+  intros s1 s2 [Ho Hl]. cbn. split; [|exact I]. split.
+  - destruct Ho as [Hsl Hli Hpc Hrb Hbr Hvf Hfr]. constructor; cbn; auto.
+  - cbn. rewrite !app_length, Hl. reflexivity.
+Qed.
+
+Section CallCong.
+Variable E : env.
+
+Ltac lift_prim := apply Mrelw_lift;
+  [ first [ apply fill_slotting_rel | apply add_limiter_rel | apply remove_slotting_rel
+          | apply remove_limiter_rel | apply pc_set_rel | apply pc_del_rel
+          | apply rb_append_rel | apply rb_remove_rel | apply brc_add_rel
+          | apply brc_remove_rel | apply vf_add_rel | apply vf_remove_rel
+          | apply fr_add_rel | apply fr_remove_rel | apply gets_brc_rel ]
+  | first [ apply frame_fill | apply frame_add_limiter | apply frame_remove_slotting | apply frame_remove_limiter
+          | apply frame_pc_set | apply frame_pc_del | apply frame_rb_append | apply frame_rb_remove
+          | apply frame_brc_add | apply frame_brc_remove | apply frame_vf_add | apply frame_vf_remove
+          | apply frame_fr_add | apply frame_fr_remove | apply frame_gets ]
+  | first [ apply frame_fill | apply frame_add_limiter | apply frame_remove_slotting | apply frame_remove_limiter
+          | apply frame_pc_set | apply frame_pc_del | apply frame_rb_append | apply frame_rb_remove
+          | apply frame_brc_add | apply frame_brc_remove | apply frame_vf_add | apply frame_vf_remove
+          | apply frame_fr_add | apply frame_fr_remove | apply frame_gets ] ].
+Ltac relw_step :=
+  first [ apply Mrelw_ret; exact I
+        | eapply Mrelw_bind; [ first [ apply Mrelw_plan_append | lift_prim ] | intros ? ? ? ] ].
+
+Lemma add_relw c p f : Mrelw (@Rtrue _ _) (add_apply E c p f) (add_apply E c p f).
+Proof.
+  unfold add_apply. relw_step. unfold Rnil in H. rewrite H.
+  destruct (negb (is_nil b) && negb f); [apply Mrelw_ret; exact I|].
+  repeat relw_step.
+Qed.
+Lemma incref_relw c b k : Mrelw (@Rtrue _ _) (incref_apply E c b k) (incref_apply E c b k).
+Proof.
+  unfold incref_apply. relw_step. relw_step. subst.
+  eapply Mrelw_bind with (R := @Rtrue (list item) (list item)).
+  - destruct b1; [apply Mrelw_ret; exact I | lift_prim].
+  - intros ? ? ?. repeat relw_step.
+Qed.
+Lemma decref_relw c b k : Mrelw (@Rtrue _ _) (decref_apply c b k) (decref_apply c b k).
+Proof.
+  unfold decref_apply. relw_step. relw_step. relw_step. subst.
+  eapply Mrelw_bind with (R := @Rtrue unit unit).
+  - unfold when. destruct (negb b2); [lift_prim | apply Mrelw_ret; exact I].
+  - intros ? ? ?. lift_prim.
+Qed.
+
+Lemma simple_call_relw a :
+  match a with ARemove _ _ | AReplace _ _ _ => False | _ => True end ->
+  Mrelw (@Rtrue _ _) (call E a) (call E a).
+Proof.
+  destruct a; intros H; try contradiction; cbn [call].
+  - apply add_relw.
+  - repeat relw_step.
+  - repeat relw_step.
+  - eapply Mrelw_bind; [apply incref_relw | intros ? ? ?; apply Mrelw_ret; exact I].
+  - eapply Mrelw_bind; [apply decref_relw | intros ? ? ?; apply Mrelw_ret; exact I].
+Qed.
+
+End CallCong.
+
+Section CompoundCong.
+Variable E : env.
+
+Lemma same_count_length {A} (eqb : A -> A -> bool) (Hr : reflects eqb) l1 l2 :
+  (forall x, count eqb x l1 = count eqb x l2) -> length l1 = length l2.
+Proof.
+  intros H. pose proof (same_count_map eqb Hr (fun _ => 0%N) l1 l2 H 0%N) as Hm.
+  assert (Hc : forall l : list A, count N.eqb 0%N (map (fun _ => 0%N) l) = length l).
+  { induction l as [|x l IH]; cbn; [reflexivity | rewrite IH; reflexivity]. }
+  rewrite !Hc in Hm. exact Hm.
+Qed.
+
+Lemma decref_all_rb c : forall l s, Inv E s ->
+  (forall e, count pair_eqb e l <= count trip_eqb (c, e) (rb s)) ->
+  forall e, count trip_eqb e (rb (fst (decref_all c l s)))
+            = count trip_eqb e (rb s) - (if N.eqb (fst e) c then count pair_eqb (snd e) l else 0).
+Proof.
+  induction l as [|[b k] r IH]; intros s HI Hc e.
+  - cbn. destruct (N.eqb (fst e) c); lia.
+  - assert (Hin : count trip_eqb (c, (b, k)) (rb s) <> 0).
+    { specialize (Hc (b, k)). cbn in Hc. rewrite (eqb_refl' pair_eqb pair_reflects) in Hc. lia. }
+    destruct (decref_apply_ok E s c b k HI Hin) as (s' & Hap & Hpl & Hsl & Hpc & Hvf & Hfr & Hrb & Hbrc & Hli).
+    pose proof (inv_decref_fields E s s' c b k HI Hin Hsl Hvf Hrb Hbrc Hli) as HI'.
+    assert (Hc' : forall e, count pair_eqb e r <= count trip_eqb (c, e) (rb s')).
+    { intros e0. rewrite Hrb, (count_remove1 trip_eqb trip_reflects). specialize (Hc e0). cbn in Hc.
+      unfold trip_eqb at 1. cbn. rewrite N.eqb_refl. cbn.
+      rewrite (eqb_sym' pair_eqb pair_reflects (b, k) e0). destruct (pair_eqb e0 (b, k)); lia. }
+    cbn [decref_all]. unfold bind. rewrite Hap. rewrite (IH s' HI' Hc' e), Hrb.
+    rewrite (count_remove1 trip_eqb trip_reflects). destruct e as [c0 e0]. cbn [fst snd count].
+    unfold trip_eqb at 1. cbn [fst snd]. rewrite (N.eqb_sym c c0).
+    rewrite (eqb_sym' pair_eqb pair_reflects (b, k) e0).
+    destruct (N.eqb c0 c); cbn; [destruct (pair_eqb e0 (b, k)); lia | lia].
+Qed.
+
+(* under the invariant the blocker refcounts and the limiters are functions of rev_blockers *)
+Lemma inv_blk_determined a b : Inv E a -> Inv E b ->
+  (forall e, count trip_eqb e (rb a) = count trip_eqb e (rb b)) ->
+  (forall x, count N.eqb x (brc a) = count N.eqb x (brc b)) /\
+  (forall kb, count pair_eqb kb (lims a) = count pair_eqb kb (lims b)).
+Proof.
+  intros Ia Ib Hrb.
+  assert (Hbrc : forall x, count N.eqb x (brc a) = count N.eqb x (brc b)).
+  { intros x. rewrite (I_brc E a Ia), (I_brc E b Ib). unfold blockers_of.
+    apply (same_count_map trip_eqb trip_reflects). exact Hrb. }
+  split; [exact Hbrc|]. intros [k x]. rewrite (I_lims E a Ia), (I_lims E b Ib).
+  rewrite (memN_obs (brc a) (brc b) x Hbrc). reflexivity.
+Qed.
+
+Lemma rb_of_counts s1 s2 c : obs_eq s1 s2 ->
+  forall e, count pair_eqb e (rb_of c s1) = count pair_eqb e (rb_of c s2).
+Proof. intros H e. rewrite !count_rb_of. apply H. Qed.
+
+(* the nested decrefs of two ≈ states end in ≈ states (the logs may differ in order) *)
+Lemma decref_all_cong c s1 s2 sb1 sb2 : Inv E s1 -> obs_eq s1 s2 ->
+  decref_all c (rb_of c s1) s1 = (sb1, Ok tt) -> decref_all c (rb_of c s2) s2 = (sb2, Ok tt) ->
+  Inv E sb1 -> Inv E sb2 ->
+  (forall e, count trip_eqb e (rb sb1) = count trip_eqb e (rb sb2)) /\
+  (forall x, count N.eqb x (brc sb1) = count N.eqb x (brc sb2)) /\
+  (forall kb, count pair_eqb kb (lims sb1) = count pair_eqb kb (lims sb2)) /\
+  length (rb_of c s1) = length (rb_of c s2).
+Proof.
+  intros HI Ho H1 H2 I1 I2. pose proof (Inv_obs E s1 s2 Ho HI) as HI2.
+  assert (Hl1 : forall e, count pair_eqb e (rb_of c s1) <= count trip_eqb (c, e) (rb s1))
+    by (intros e; rewrite count_rb_of; lia).
+  assert (Hl2 : forall e, count pair_eqb e (rb_of c s2) <= count trip_eqb (c, e) (rb s2))
+    by (intros e; rewrite count_rb_of; lia).
+  assert (Hrb : forall e, count trip_eqb e (rb sb1) = count trip_eqb e (rb sb2)).
+  { intros e. pose proof (decref_all_rb c _ s1 HI Hl1 e) as A1. pose proof (decref_all_rb c _ s2 HI2 Hl2 e) as A2.
+    rewrite H1 in A1. rewrite H2 in A2. cbn [fst] in A1, A2. rewrite A1, A2.
+    rewrite (oe_rb _ _ Ho e), (rb_of_counts s1 s2 c Ho). reflexivity. }
+  destruct (inv_blk_determined sb1 sb2 I1 I2 Hrb) as [Hb Hl].
+  repeat split; auto.
+  apply (same_count_length pair_eqb pair_reflects). apply rb_of_counts. exact Ho.
+Qed.
+
+Lemma call_remove_state2 s c p : Inv E s -> wf_api_b E s (ARemove c p) = true ->
+  exists sb, decref_all c (rb_of c s) s = (sb, Ok tt) /\ Inv E sb /\
+    plan sb = plan s ++ dops c (rb_of c s) /\ slots sb = slots s /\ pc sb = pc s /\ vf sb = vf s /\ fr sb = fr s /\
+    call_s E (ARemove c p) s
+    = set_vf (vf s ++ [p]) (set_plan (plan sb ++ [ORemove c p])
+        (set_pc (filter (fun qc : N * N => negb (N.eqb (fst qc) p)) (pc s))
+           (set_slots (filter (fun x => negb (N.eqb x p)) (slots s)) sb))).
+Proof.
+  intros HI H. cbn [wf_api_b] in H. apply andb_true_iff in H. destruct H as [Hsl Hpc].
+  unfold opt_eqb in Hpc. destruct (lookup p (pc s)) as [c0|] eqn:Hlk; [|discriminate].
+  apply N.eqb_eq in Hpc. subst c0.
+  assert (Hc1 : count N.eqb p (slots s) = 1).
+  { pose proof (I_nodup E s HI p). pose proof (count_mem _ _ Hsl). lia. }
+  assert (Hvf : memN p (vf s) = false) by (apply (I_vf E s HI); rewrite Hc1; lia).
+  assert (Hl : forall e, count pair_eqb e (rb_of c s) <= count trip_eqb (c, e) (rb s))
+    by (intros e; rewrite count_rb_of; lia).
+  destruct (decref_all_ok E c (rb_of c s) s HI Hl) as (sb & Hall & HIb & Hplb & Hslb & Hpcb & Hvfb & Hfrb & Hundo).
+  exists sb. repeat (split; [assumption|]).
+  unfold call_s. cbn [call]. unfold remove_apply, bind, remove_slotting. rewrite Hsl.
+  unfold remove_pkg_blockers. rewrite rb_of_set_slots, decref_all_slots, Hall. cbn [fst snd].
+  unfold pc_del. cbn [pc set_slots]. rewrite Hpcb, Hlk. cbn.
+  rewrite Hvfb, Hvf. cbn. reflexivity.
+Qed.
+
+Lemma remove_cong s1 s2 c p : Inv E s1 -> equivw s1 s2 ->
+  wf_api_b E s1 (ARemove c p) = true -> wf_api_b E s2 (ARemove c p) = true ->
+  equivw (call_s E (ARemove c p) s1) (call_s E (ARemove c p) s2).
+Proof.
+  intros HI [Ho Hlen] W1 W2. pose proof (Inv_obs E s1 s2 Ho HI) as HI2.
+  destruct (call_remove_state2 s1 c p HI W1) as (sb1 & A1 & I1 & P1 & S1 & C1 & V1 & F1 & ->).
+  destruct (call_remove_state2 s2 c p HI2 W2) as (sb2 & A2 & I2 & P2 & S2 & C2 & V2 & F2 & ->).
+  destruct (decref_all_cong c s1 s2 sb1 sb2 HI Ho A1 A2 I1 I2) as (Hrb & Hbrc & Hlim & Hll).
+  destruct Ho as [Hsl Hli Hpc Hrb0 Hbr Hvf Hfr]. split.
+  - constructor; cbn; intros; auto.
+    + rewrite !(count_filter N.eqb N_reflects), Hsl. reflexivity.
+    + rewrite !lookup_filter_ne, Hpc. reflexivity.
+    + rewrite !memN_app, Hvf. reflexivity.
+    + rewrite F1, F2. apply Hfr.
+  - cbn. rewrite !app_length, P1, P2, !app_length. unfold dops. rewrite !map_length, Hll, Hlen. reflexivity.
+Qed.
+
+Lemma replace_cong s1 s2 c p f : Inv E s1 -> equivw s1 s2 ->
+  wf_api_b E s1 (AReplace c p f) = true -> wf_api_b E s2 (AReplace c p f) = true ->
+  equivw (call_s E (AReplace c p f) s1) (call_s E (AReplace c p f) s2).
+Proof.
+  intros HI [Ho Hlen] W1 W2. pose proof (Inv_obs E s1 s2 Ho HI) as HI2.
+  assert (f = false) by (destruct f; [discriminate | reflexivity]). subst f.
+  destruct (replace_facts E s1 c p HI W1) as (old & oc & sb1 & Hold1 & F1).
+  destruct (replace_facts E s2 c p HI2 W2) as (old2 & oc2 & sb2 & Hold2 & F2).
+  assert (old2 = old).
+  { destruct (N.eqb old2 old) eqn:Hoo; [apply N.eqb_eq; exact Hoo|]. exfalso.
+    pose proof (rf_others E _ _ _ _ _ _ F1 old2) as Hx.
+    rewrite (rf_same E _ _ _ _ _ _ F2) in Hx. 
+    assert (count N.eqb old2 (slots s1) <> 0).
+    { rewrite (oe_slots _ _ Ho), (rf_old_in E _ _ _ _ _ _ F2). lia. }
+    specialize (Hx H Hoo). discriminate. }
+  subst old2.
+  assert (oc2 = oc).
+  { pose proof (rf_oc E _ _ _ _ _ _ F1) as A. pose proof (rf_oc E _ _ _ _ _ _ F2) as B.
+    rewrite (oe_pc _ _ Ho) in A. congruence. }
+  subst oc2.
+  unfold call_s. rewrite (call_replace E s1 c p old oc sb1 Hold1 F1), (call_replace E s2 c p old oc sb2 Hold2 F2).
+  cbn [fst].
+  destruct (decref_all_cong oc s1 s2 sb1 sb2 HI Ho (rf_all E _ _ _ _ _ _ F1) (rf_all E _ _ _ _ _ _ F2)
+              (rf_inv E _ _ _ _ _ _ F1) (rf_inv E _ _ _ _ _ _ F2)) as (Hrb & Hbrc & Hlim & Hll).
+  pose proof (rf_fr E _ _ _ _ _ _ F1) as Fr1. pose proof (rf_fr E _ _ _ _ _ _ F2) as Fr2.
+  pose proof (rf_plan E _ _ _ _ _ _ F1) as P1. pose proof (rf_plan E _ _ _ _ _ _ F2) as P2.
+  destruct Ho as [Hsl Hli Hpc Hrb0 Hbr Hvf Hfr]. unfold replace_result. split.
+  - constructor; cbn; intros; auto.
+    + rewrite !(count_app N.eqb), !(count_filter N.eqb N_reflects), Hsl. reflexivity.
+    + destruct (N.eqb p0 p); [reflexivity|]. rewrite !lookup_filter_ne, Hpc. reflexivity.
+    + rewrite !memN_app, Hvf. reflexivity.
+    + rewrite Fr1, Fr2. apply Hfr.
+  - cbn. rewrite !app_length, P1, P2, !app_length. unfold dops. rewrite !map_length, Hll, Hlen. reflexivity.
+Qed.
+
+(* well-formedness of a call is a property of the ≈-class (under the invariant) *)
+Lemma same_slot_trans p a b : same_slot E p a = true -> same_slot E p b = true -> same_slot E a b = true.
+Proof.
+  unfold same_slot. intros H1 H2. apply andb_true_iff in H1. apply andb_true_iff in H2.
+  destruct H1 as [A1 A2], H2 as [B1 B2]. apply N.eqb_eq in A1, A2, B1, B2.
+  rewrite B1, B2, <- A1, <- A2, !N.eqb_refl. reflexivity.
+Qed.
+
+Lemma conflicting_slot_obs s1 s2 p old : Inv E s1 -> obs_eq s1 s2 ->
+  get_conflicting_slot E p s1 = Some old -> get_conflicting_slot E p s2 = Some old.
+Proof.
+  intros HI Ho H. unfold get_conflicting_slot in *. apply find_some in H. destruct H as [Hin Hs].
+  destruct (find (same_slot E p) (slots s2)) as [x|] eqn:Hf.
+  - apply find_some in Hf. destruct Hf as [Hin2 Hs2]. f_equal. symmetry.
+    apply (I_slot E s1 HI).
+    + apply (count_In N.eqb N_reflects). exact Hin.
+    + rewrite (oe_slots _ _ Ho). apply (count_In N.eqb N_reflects). exact Hin2.
+    + eapply same_slot_trans; eauto.
+  - exfalso. pose proof (find_none _ _ Hf old) as Hn.
+    assert (In old (slots s2)).
+    { apply (count_In N.eqb N_reflects). rewrite <- (oe_slots _ _ Ho). apply (count_In N.eqb N_reflects). exact Hin. }
+    rewrite (Hn H) in Hs. discriminate.
+Qed.
+
+Lemma wf_obs s1 s2 a : Inv E s1 -> obs_eq s1 s2 -> wf_api_b E s1 a = true -> wf_api_b E s2 a = true.
+Proof.
+  intros HI Ho. destruct a; cbn [wf_api_b]; auto.
+  - unfold bound. rewrite (oe_pc _ _ Ho), (memN_obs (slots s1) (slots s2) p (oe_slots _ _ Ho)),
+      (oe_vf _ _ Ho), (slot_conflicts_nil E s1 s2 p Ho). auto.
+  - rewrite (oe_pc _ _ Ho), (memN_obs (slots s1) (slots s2) p (oe_slots _ _ Ho)). auto.
+  - unfold bound. rewrite (oe_pc _ _ Ho p), (memN_obs (slots s1) (slots s2) p (oe_slots _ _ Ho)),
+      (oe_vf _ _ Ho), (check_limiters_nil E s1 s2 p Ho).
+    intros H. apply andb_true_iff in H. destruct H as [H Hm]. rewrite H. cbn [andb].
+    destruct (get_conflicting_slot E p s1) as [old|] eqn:Hold; [|discriminate].
+    rewrite (conflicting_slot_obs s1 s2 p old HI Ho Hold). rewrite <- (oe_pc _ _ Ho old).
+    destruct (lookup old (pc s1)) as [oc|]; [|discriminate].
+    apply forallb_forall. intros x Hx. rewrite forallb_forall in Hm. apply Hm.
+    apply (count_In pair_eqb pair_reflects). rewrite (rb_of_counts s1 s2 oc Ho).
+    apply (count_In pair_eqb pair_reflects). exact Hx.
+  - rewrite (existsb_obs trip_eqb trip_reflects (rb s1) (rb s2) _ (oe_rb _ _ Ho)). auto.
+Qed.
+
+(* every well-formed call respects ≈w *)
+Lemma call_cong s1 s2 a : Inv E s1 -> equivw s1 s2 -> wf_api_b E s1 a = true ->
+  equivw (call_s E a s1) (call_s E a s2).
+Proof.
+  intros HI He W. pose proof (wf_obs s1 s2 a HI (proj1 He) W) as W2.
+  destruct a.
+  - exact (proj1 (simple_call_relw E (AAdd c p force) I s1 s2 He)).
+  - exact (proj1 (simple_call_relw E (AHardref r) I s1 s2 He)).
+  - exact (proj1 (simple_call_relw E (ABackref c p) I s1 s2 He)).
+  - apply remove_cong; assumption.
+  - apply replace_cong; assumption.
+  - exact (proj1 (simple_call_relw E (ABlock c b k) I s1 s2 He)).
+  - exact (proj1 (simple_call_relw E (ADecref c b k) I s1 s2 He)).
+Qed.
+
+End CompoundCong.
+
+(* ------------------------------------------------------------------ replay of the surviving calls *)
+Section ReplayForm.
+Variable E : env.
+
+Definition apis (L : list (nat * state * api)) : list api := rev (map snd L).
+Fixpoint Rep (L : list (nat * state * api)) : Prop :=
+  match L with
+  | [] => True
+  | (n, sb, a) :: L' => equivw sb (replay E (apis L') init) /\ Rep L'
+  end.
+
+Local Notation ltk k := (fun x : nat * state * api => Nat.ltb (fst (fst x)) k).
+
+Lemma rep_filter k : forall L s, Chain E s L -> Rep L ->
+  (exists sb a, In (k, sb, a) L) ->
+  exists sb a, In (k, sb, a) L /\ Rep (filter (ltk k) L) /\
+               equivw sb (replay E (apis (filter (ltk k) L)) init).
+Proof.
+  induction L as [|[[n sb] a] L IH]; intros s Hc HR (sb0 & a0 & Hin); [destruct Hin|].
+  inversion Hc as [|s' n' sb' a' L' Hn Hu He Hc']; subst. destruct HR as [HRh HRt].
+  assert (Hf : filter (ltk k) ((length (plan sb), sb, a) :: L)
+               = if Nat.ltb (length (plan sb)) k then (length (plan sb), sb, a) :: filter (ltk k) L
+                 else filter (ltk k) L) by reflexivity.
+  rewrite !Hf. clear Hf. destruct (Nat.ltb (length (plan sb)) k) eqn:Hlt.
+  - apply Nat.ltb_lt in Hlt. destruct Hin as [Heq|Hin].
+    + injection Heq as Heq _ _. lia.
+    + pose proof (chain_pos E _ _ Hc' _ _ _ Hin). lia.
+  - apply Nat.ltb_ge in Hlt.
+    destruct (existsb (fun x : nat * state * api => Nat.eqb (fst (fst x)) k) L) eqn:Hex.
+    + apply existsb_exists in Hex. destruct Hex as ([[n1 sb1] a1] & Hin1 & Heq1). cbn in Heq1.
+      apply Nat.eqb_eq in Heq1. subst n1.
+      destruct (IH sb Hc' HRt (ex_intro _ sb1 (ex_intro _ a1 Hin1))) as (sb2 & a2 & Hin2 & HR2 & He2).
+      exists sb2, a2. split; [right; exact Hin2 | split; assumption].
+    + destruct Hin as [Heq|Hin].
+      * injection Heq as Heq <- <-. exists sb, a. split; [left; f_equal; f_equal; exact Heq|].
+        assert (Hall : filter (ltk k) L = L).
+        { apply forallb_filter_id. apply forallb_forall. intros [[n1 sb1] a1] Hin1. cbn.
+          apply Nat.ltb_lt. pose proof (chain_pos E _ _ Hc' _ _ _ Hin1) as Hle.
+          assert (n1 <> k).
+          { intros ->. assert (Hf : existsb (fun x : nat * state * api => Nat.eqb (fst (fst x)) k) L = true).
+            { apply existsb_exists. eexists. split; [exact Hin1|]. cbn. apply Nat.eqb_refl. }
+            congruence. }
+          lia. }
+        rewrite Hall. split; assumption.
+      * exfalso. assert (Hf : existsb (fun x : nat * state * api => Nat.eqb (fst (fst x)) k) L = true).
+        { apply existsb_exists. eexists. split; [exact Hin|]. cbn. apply Nat.eqb_refl. }
+        congruence.
+Qed.
+
+Definition allok (a : api) : bool := true.
+Definition good2 (c : state * list (nat * state * api)) (t : tstate) : Prop :=
+  good E (Inv E) c t /\ map (fun x : nat * state * api => (fst (fst x), snd x)) (snd c) = rev (snd t) /\
+  Rep (snd c) /\ equivw (fst c) (replay E (apis (snd c)) init).
+
+Lemma replay_snoc l a s : replay E (l ++ [a]) s = call_s E a (replay E l s).
+Proof. unfold replay. rewrite fold_left_app. reflexivity. Qed.
+
+Lemma good_step_inv e c t : good E (Inv E) c t -> wfe E allok e t = true ->
+  good E (Inv E) (cstep E e c) (tstep E e t).
+Proof.
+  apply (good_step E (Inv E) allok (Inv_obs E)).
+  - intros. apply inv_call; assumption.
+  - intros. apply revert_inverts_apply_proof; assumption.
+Qed.
+
+Lemma good2_step e c t : good2 c t -> wfe E allok e t = true -> good2 (cstep E e c) (tstep E e t).
+Proof.
+  intros (Hg & Hm & HR & HQ) Hwf. pose proof (good_step_inv e c t Hg Hwf) as Hg'.
+  pose proof Hg as (Hs & Hp & HI & Hc & Hall).
+  unfold wfe in Hwf. apply andb_true_iff in Hwf. destruct Hwf as [Hwf _].
+  split; [exact Hg'|]. destruct e as [a|k]; cbn [cstep tstep fst snd] in *.
+  - (* call *)
+    cbn in Hwf. rewrite <- Hs in Hwf. split; [|split].
+    + cbn. rewrite rev_app_distr. cbn. rewrite Hm, Hs. reflexivity.
+    + split; assumption.
+    + unfold apis. cbn [map snd rev]. rewrite replay_snoc. apply call_cong; assumption.
+  - (* rollback *)
+    assert (Hm' : map (fun x : nat * state * api => (fst (fst x), snd x)) (filter (ltk k) (snd c))
+                  = rev (filter (fun na => Nat.ltb (fst na) k) (snd t))).
+    { rewrite <- filter_rev, <- Hm.
+      apply (map_filter_fst (fun x : nat * state * api => (fst (fst x), snd x)) (fun na => Nat.ltb (fst na) k)). }
+    split; [exact Hm'|].
+    destruct (existsb (fun x : nat * state * api => Nat.eqb (fst (fst x)) k) (snd c)) eqn:Hex.
+    + apply existsb_exists in Hex. destruct Hex as ([[n1 sb1] a1] & Hin1 & Heq1). cbn in Heq1.
+      apply Nat.eqb_eq in Heq1. subst n1.
+      destruct (rep_filter k _ _ Hc HR (ex_intro _ sb1 (ex_intro _ a1 Hin1))) as (sb2 & a2 & Hin2 & HR2 & He2).
+      destruct (chain_rollback E _ _ Hc _ _ _ Hin2) as (s' & Hb & He').
+      unfold backtrack_s. rewrite Hb. cbn [fst]. split; [exact HR2|].
+      eapply equivw_trans; [apply equiv_equivw; exact He' | exact He2].
+    + (* no live call starts at k: k = len(plan), nothing happens *)
+      cbn in Hwf. apply orb_true_iff in Hwf. destruct Hwf as [Hk|Hk].
+      * apply Nat.eqb_eq in Hk. rewrite <- Hs in Hk. subst k.
+        unfold backtrack_s. rewrite backtrack_here_proof. cbn [fst].
+        assert (Hid : filter (ltk (length (plan (fst c)))) (snd c) = snd c).
+        { apply forallb_filter_id. apply forallb_forall. intros [[n1 sb1] a1] Hin1. cbn.
+          apply Nat.ltb_lt. pose proof (chain_pos E _ _ Hc _ _ _ Hin1) as Hle.
+          assert (n1 <> length (plan (fst c))).
+          { intros ->. assert (Hf : existsb (fun x : nat * state * api => Nat.eqb (fst (fst x)) (length (plan (fst c)))) (snd c) = true).
+            { apply existsb_exists. eexists. split; [exact Hin1|]. cbn. apply Nat.eqb_refl. }
+            congruence. }
+          lia. }
+        rewrite Hid. split; assumption.
+      * exfalso. apply existsb_exists in Hk. destruct Hk as ([n1 a1] & Hin1 & Heq1). cbn in Heq1.
+        apply Nat.eqb_eq in Heq1. subst n1.
+        assert (Hin : In (k, a1) (map (fun x : nat * state * api => (fst (fst x), snd x)) (snd c))).
+        { rewrite Hm, <- in_rev. exact Hin1. }
+        apply in_map_iff in Hin. destruct Hin as ([[n2 sb2] a2] & Heq2 & Hin2). cbn in Heq2.
+        injection Heq2 as -> ->.
+        assert (Hf : existsb (fun x : nat * state * api => Nat.eqb (fst (fst x)) k) (snd c) = true).
+        { apply existsb_exists. eexists. split; [exact Hin2|]. cbn. apply Nat.eqb_refl. }
+        congruence.
+Qed.
+
+Lemma good2_run h : forall c t, good2 c t -> wf_from' E allok h t = true ->
+  good2 (fold_left (fun c e => cstep E e c) h c) (trun E h t).
+Proof.
+  induction h as [|e h IH]; intros c t Hg Hwf; [exact Hg|].
+  cbn in Hwf. apply andb_true_iff in Hwf. destruct Hwf as [H1 H2].
+  cbn [fold_left]. change (trun E (e :: h) t) with (trun E h (tstep E e t)).
+  apply IH; [apply good2_step; assumption | exact H2].
+Qed.
+
+Lemma good2_init : good2 (init, []) (init, []).
+Proof.
+  split; [apply good_init; apply Inv_init|]. split; [reflexivity|]. split; [exact I|]. apply equivw_refl.
+Qed.
+
+End ReplayForm.
+
+Lemma backtrack_is_replay_proof : backtrack_is_replay_statement.
+Proof.
+  intros E h Hwf.
+  assert (Hwf' : wf_from' E allok h (init, []) = true).
+  { rewrite wf_from'_iff. unfold WF in Hwf. rewrite Hwf. cbn.
+    apply forallb_forall. intros [a|k0] _; reflexivity. }
+  pose proof (good2_run E h _ _ (good2_init E) Hwf') as (Hg & Hm & _ & HQ).
+  destruct Hg as (Hs & _).
+  rewrite Hs, trun_state in HQ. cbn [fst] in HQ.
+  replace (surviving E h) with (apis (snd (fold_left (fun c e => cstep E e c) h (init, [])))); [exact HQ|].
+  unfold surviving, apis.
+  transitivity (rev (map snd (map (fun x : nat * state * api => (fst (fst x), snd x))
+                                  (snd (fold_left (fun c e => cstep E e c) h (init, [])))))).
+  { rewrite map_map. reflexivity. }
+  rewrite Hm, map_rev, rev_involutive. reflexivity.
+Qed.
+
+Lemma call_respects_equivw_proof : forall E s1 s2 a,
+  Inv E s1 -> equivw s1 s2 -> wf_api_b E s1 a = true ->
+  wf_api_b E s2 a = true /\ equivw (call_s E a s1) (call_s E a s2).
+Proof.
+  intros E s1 s2 a HI He W. split; [eapply wf_obs; eauto; apply He | apply call_cong; assumption].
+Qed.
 
 (* ------------------------------------------------------------------ examples and refutations *)
 Definition E0 : env := env_of {| ckeys := [0;0;0;1]%N; cslots := [0;0;1;0]%N; cbkeys := [0;1]%N;
